@@ -849,6 +849,9 @@ class C04(ResolveSpec):
                 gen.boost_grants(rng, c)
             if i % 4 == 2:
                 gen.boost_git_violation(rng, c)
+            if i % 10 == 1:
+                # two exemptions of one crate inside one violation's range; only the SECOND claims the violated criterion
+                gen.boost_violation_second_exemption(rng, c)
             cases.append(c)
         return cases
 
@@ -1289,7 +1292,9 @@ class C08(SimpleSpec):
         return ["ShowAuditAs"]
 
     def gen_cases(self, rng, n):
-        return [gen.gen_audit_as_case(rng, f"a{i}") for i in range(n)]
+        r2 = __import__("random").Random(rng.random())
+        return ([gen.gen_audit_as_overlap_case(r2, f"o{i}") for i in range(max(8, n // 10))] +
+                [gen.gen_audit_as_case(rng, f"a{i}") for i in range(n)])
 
     def model_expr(self, o):
         return f"sc08 {coq(o['model_input']['pkgs'])} {coq(o['model_input']['pols'])}"
@@ -1540,10 +1545,40 @@ class C16(SimpleSpec):
             ex = o.get("extra", {})
             if not ex.get("reloads") or not ex.get("reloads_strict"):
                 out.append("the aggregated file does not load back as the same audits file")
+            # provenance, read off the text that was written: every criterion and every entry ends its aggregated-from chain
+            # with one of the sources of this run — however many sources there are
+            urls = {s_["url"] for s_ in case["sources"]}
+            untagged = 0
+            first = None
+            for block in re.split(r"\n\s*\n", ex.get("text") or ""):
+                head = block.strip().splitlines()[0] if block.strip() else ""
+                if not re.match(r"^(\[\[(audits|wildcard-audits|trusted)\.|\[criteria\.)", head):
+                    continue
+                m = re.search(r'aggregated-from\s*=\s*(\[.*?\]|"[^"]*")', block, re.S)
+                chain = re.findall(r'"([^"]*)"', m.group(1)) if m else []
+                if not chain or chain[-1] not in urls:
+                    untagged += 1
+                    first = first or head
+            if untagged:
+                out.append(f"{untagged} records of the aggregate (first: {first}) do not end their aggregated-from chain with a source of this run "
+                           f"({len(urls)} source{'s' if len(urls) != 1 else ''})")
         return out
 
     def run(self, rng, tier, work, model_ok=True, ncases=None, replay=None):
         res = super().run(rng, tier, work, model_ok, ncases, replay)
+        # the harness identifies every output record by the source its aggregated-from chain ends with; a record without such
+        # a tag is not a harness problem but the property failing (provenance lost), with this very case as the input
+        keep = []
+        for m in res["mismatches"]:
+            if "unknown source tag" in m.get("why", ""):
+                res["oracle_failures"].append({"id": m["id"], "finding": None, "case": m["case"],
+                                               "what": "a record of the aggregate does not end its aggregated-from chain with any of the "
+                                                       f"{len(m['case'].get('sources', []))} source(s) it was aggregated from"})
+            else:
+                keep.append(m)
+        res["mismatches"] = keep
+        if replay:
+            return res
         # stage 2: verdict of "import the aggregate" vs "import every source separately"
         cases = []
         n = ncases or (self.quick_n if tier == "quick" else self.thorough_n)
@@ -2506,6 +2541,9 @@ class HistorySpec(Spec):
                 [gen.scenario_violation_before_audit(f"vb{k}", k) for k in range(2)] +
                 [gen.scenario_certify_collapse(f"cc{k}", k) for k in range(3)] +
                 [gen.scenario_unmapped_before_needed(f"um{k}", k) for k in range(2)] +
+                [gen.scenario_shared_exemption_two_needs(f"sx{k}", k) for k in range(2)] +
+                [gen.scenario_lapsed_peer_wildcard(f"lw{k}", k) for k in range(2)] +
+                [gen.scenario_overlap_redundant_exemption(f"ov{k}", k) for k in range(3)] +
                 [gen.scenario_duplicate_exemptions(f"de{k}", k) for k in range(2)] +
                 [gen.scenario_trusted_vs_recorded_audit(f"tr{k}", k) for k in range(2)] +
                 [gen.gen_history(rng, f"h{i}") for i in range(n)])
@@ -2526,14 +2564,23 @@ class _C05Hist(HistorySpec):
     """the history stage of the C05 check: the audits `certify` writes denote the criteria that were asked for / recorded"""
     pid = "C05"
     compare_user_commands = True
-    oracle_fn = staticmethod(hist.oracle_c05)
+
+    @staticmethod
+    def oracle_fn(st):
+        # what certify writes; and what the pruning update writes for an exemption still means everything the exemption is
+        # needed for (the written list denotes the computed set): a passing store keeps passing
+        out = hist.oracle_c05(st)
+        if st.cls in ("prune", "regenerate-imports"):
+            out += hist.oracle_c10(st)
+        return out
 
     def gen_cases(self, rng, n):
         return ([gen.scenario_certify_collapse(f"cc{k}", k) for k in range(3)] +
+                [gen.scenario_shared_exemption_two_needs(f"sx{k}", k) for k in range(2)] +
                 [gen.gen_history(rng, f"h{i}") for i in range(n)])
 
     def step_nontrivial(self, st):
-        return st.cls == "certify" and st.outcome == "ok"
+        return st.cls in ("certify", "prune") and st.outcome == "ok"
 
 
 class _C17Hist(HistorySpec):
